@@ -128,6 +128,7 @@ theorem cmp_hs {x y : Word} {t : ArithRes} (ht : t = addWithCarry x (~~~y) true)
   have hc : (addWithCarry x (~~~y) true).c = true := by simpa using h
   exact (cmp_c_iff x y).1 hc
 
+set_option exponentiation.threshold 800 in
 /-- the final `subs`/`sbcs` chain does not borrow when `P ≤ R` -/
 theorem sub_no_borrow {res P R b : Nat} (hs : res + P = R + 2 ^ 384 * b) (hle : P ≤ R) (hb : res < 2 ^ 384) :
     res + P = R := by
